@@ -9,5 +9,5 @@ for d in */; do
   p=$(python3 -c "import json;print(json.load(open('$id/meta.json')).get('breaks_property',''))" 2>/dev/null)
   [ -z "$p" ] && p=${id%%_*}
   extra=""; [ -f $id/also.txt ] && extra=$(cat $id/also.txt)
-  echo "$id $p $extra"
+  echo "$id $p $extra" | sed -e "s/ *$//"
 done | VERIF_JOBS=4 xargs -P $par -L1 /verif/tools/seed_par.sh 2>&1 | grep -- "->"
